@@ -11,10 +11,18 @@
 //	                      a loopback connection, SetMTU(<mtu>) applied; the frames are what reaches the
 //	                      transport's link service; rd writes to the peer end (=> k=<n> w), the frames
 //	                      are reported at eof (=> nil f=<all frames>)
-//	new tcps|unixs <mtu>  send-side leg: the peer's end is a real transport of the same kind with
-//	                      SetMTU(<mtu>); `sf` hands the next block to ITS sendFrame (as a link service
-//	                      does, => k=<len> w); the receiving transport keeps the default MTU; the
-//	                      frames that reach its link service are reported at eof
+//	new udp <rmtu>        the REAL UnicastUDPTransport receive loop (loopback UDP) with SetMTU(<rmtu>); `sf`
+//	                      writes the next block as one datagram from a plain socket
+//	new tcps|unixs|udps <smtu> <rmtu>
+//	                      send-side leg: the peer's end is a real transport of the same kind with
+//	                      SetMTU(<smtu>); `sf` hands the next block to ITS sendFrame (as a link service
+//	                      does, => k=<len> w); the receiving transport has SetMTU(<rmtu>) (possibly
+//	                      lower: asymmetric link); the frames that reach its link service are reported
+//	                      at eof
+//	new appsend           a StreamFace (std/engine/face) on a connection that logs what is written
+//	cs <na> <nb>          two goroutines call Send on it: the next block as a Wire of <na> buffers (held
+//	                      inside its first Write) and the block after it as a Wire of <nb> buffers;
+//	                      => k=<bytes> f=<the written bytes framed into blocks again>
 //	rde <n>               like rd, but the bytes are returned TOGETHER with an error that the
 //	                      ignoreError callback swallows (n = 0: the error alone); fw kind only
 //	blk <typ> <len> <seed> append one well-formed TLV block (type, value length, fill seed) to the
@@ -144,10 +152,17 @@ type run struct {
 	sock    net.Conn // socket kinds (tcp, unix): the peer's end of the real connection
 	closed  bool
 	// send-side leg (tcps, unixs): the peer's end is a real transport too
-	send   func([]byte) // its sendFrame
-	closeS func()       // its Close
-	blocks [][]byte     // blocks defined and not yet sent
-	kept   [][]byte     // app kind: every delivered packet, retained uncopied
+	send    func([]byte) // its sendFrame
+	closeS  func()       // its Close
+	blocks  [][]byte     // blocks defined and not yet sent
+	kept    [][]byte     // app kind: every delivered packet, retained uncopied
+	isSock  bool
+	udp     bool
+	closeR  func() // udp: Close of the receiving transport (UDP has no end of stream)
+	mu      sync.Mutex
+	nframes int
+	wc      *wconn              // appsend kind
+	face    *appface.StreamFace // appsend kind
 }
 
 var cur *run
@@ -156,69 +171,242 @@ var sockSeq int
 // startSock runs the REAL stream transport (UnicastTCPTransport / UnixStreamTransport runReceive) on
 // a loopback connection, with SetMTU(mtu) applied as management would; frames are what reaches the
 // transport's link service.  The kernel decides the chunking, so frames are reported at eof.
-func startSock(kind string, mtu int) *run {
-	r := &run{kind: kind, done: make(chan string, 1), offered: -1}
+// ---------------------------------------------------------------- application-side SEND leg
+
+// wconn is the connection under a StreamFace whose Send is exercised by two goroutines: it logs what
+// is written, and the FIRST Write after arm() reports itself and blocks until released, so that the
+// second sender gets its chance exactly while the first one is in the middle of its Wire.
+type wconn struct {
+	conn
+	mu      sync.Mutex
+	written []byte
+	nwrites int
+	armed   bool
+	inWrite chan struct{}
+	release chan struct{}
+}
+
+func (c *wconn) Write(p []byte) (int, error) {
+	c.mu.Lock()
+	gate := c.armed
+	c.armed = false
+	c.written = append(c.written, p...)
+	c.nwrites++
+	c.mu.Unlock()
+	if gate {
+		c.inWrite <- struct{}{}
+		<-c.release
+	}
+	return len(p), nil
+}
+
+func (c *wconn) writes() int {
+	c.mu.Lock()
+	defer c.mu.Unlock()
+	return c.nwrites
+}
+
+// split cuts b into n non-empty buffers (a Wire of n buffers).
+func split(b []byte, n int) enc.Wire {
+	if n > len(b) {
+		n = len(b)
+	}
+	if n < 1 {
+		n = 1
+	}
+	w := make(enc.Wire, 0, n)
+	step := len(b) / n
+	for i := 0; i < n; i++ {
+		end := (i + 1) * step
+		if i == n-1 {
+			end = len(b)
+		}
+		w = append(w, b[i*step:end])
+	}
+	return w
+}
+
+// frameBytes cuts a byte stream into TLV blocks the way a receiver would; whatever cannot be framed
+// is reported as one pseudo frame "x<len>:<hash>".
+func frameBytes(b []byte) string {
+	var out []string
+	for len(b) > 0 {
+		rd := enc.NewBufferReader(b)
+		t, err1 := enc.ReadTLNum(rd)
+		l, err2 := enc.ReadTLNum(rd)
+		n := t.EncodingLength() + l.EncodingLength() + int(l)
+		if err1 != nil || err2 != nil || uint64(l) > uint64(len(b)) || n > len(b) {
+			out = append(out, "x"+strconv.Itoa(len(b))+":"+strconv.FormatUint(fnv64(b), 16))
+			break
+		}
+		out = append(out, strconv.Itoa(n)+":"+strconv.FormatUint(fnv64(b[:n]), 16))
+		b = b[n:]
+	}
+	if len(out) == 0 {
+		return "-"
+	}
+	return strings.Join(out, ",")
+}
+
+func startAppSend() *run {
+	wc := &wconn{inWrite: make(chan struct{}), release: make(chan struct{})}
+	r := &run{kind: "appsend", done: make(chan string, 1), offered: -1, wc: wc}
+	r.face = appface.VerifNewStreamFaceOnConn(wc, true)
+	r.send = func([]byte) {} // blocks are queued, not appended to a stream
+	return r
+}
+
+// concurrentSend: sender A starts a Wire of na buffers and is held inside its first Write; sender B
+// then sends a Wire of nb buffers; A is released; the bytes written are framed again.
+func (r *run) concurrentSend(na, nb int) string {
+	if len(r.blocks) < 2 {
+		return "skip"
+	}
+	a, b := r.blocks[0], r.blocks[1]
+	r.blocks = r.blocks[2:]
+	wc := r.wc
+	wc.mu.Lock()
+	wc.written, wc.nwrites, wc.armed = nil, 0, true
+	wc.mu.Unlock()
+	doneA, doneB := make(chan string, 1), make(chan string, 1)
+	go func() {
+		doneA <- common.Guard(func() string { r.face.Send(split(a, na)); return "ok" })
+	}()
+	select {
+	case <-wc.inWrite:
+	case <-time.After(watchdog):
+		return "hang k=0 f=-"
+	}
+	before := wc.writes()
+	go func() {
+		doneB <- common.Guard(func() string { r.face.Send(split(b, nb)); return "ok" })
+	}()
+	// B either blocks on the face's send lock (no Write arrives) or writes at once
+	for i := 0; i < 40 && wc.writes() == before; i++ {
+		time.Sleep(time.Millisecond)
+	}
+	wc.release <- struct{}{}
+	for _, d := range []chan string{doneA, doneB} {
+		select {
+		case res := <-d:
+			if res != "ok" {
+				return res
+			}
+		case <-time.After(watchdog):
+			return "hang k=0 f=-"
+		}
+	}
+	wc.mu.Lock()
+	defer wc.mu.Unlock()
+	return fmt.Sprintf("k=%d f=%s", len(a)+len(b), frameBytes(wc.written))
+}
+
+func freeUDPPort() uint16 {
+	c, err := net.ListenUDP("udp4", &net.UDPAddr{IP: net.IPv4(127, 0, 0, 1)})
+	if err != nil {
+		return 0
+	}
+	defer c.Close()
+	return uint16(c.LocalAddr().(*net.UDPAddr).Port)
+}
+
+// startSock: kind tcp|unix|udp = receive leg only (the peer end is a plain socket the harness writes
+// to), kind tcps|unixs|udps = the peer end is a real transport as well (send-side leg).  smtu is the
+// MTU of the sending transport (send leg only), rmtu the MTU set on the receiving one.
+func startSock(kind string, smtu, rmtu int) *run {
+	r := &run{kind: kind, done: make(chan string, 1), offered: -1, isSock: true}
 	sendLeg := strings.HasSuffix(kind, "s")
 	kind = strings.TrimSuffix(kind, "s")
-	var ln net.Listener
-	var err error
-	if kind == "tcp" {
-		ln, err = net.Listen("tcp4", "127.0.0.1:0")
-	} else {
-		sockSeq++
-		ln, err = net.Listen("unix", fmt.Sprintf("@verif-c11-%d-%d", os.Getpid(), sockSeq))
-	}
-	if err != nil {
-		return nil
-	}
-	defer ln.Close()
-	cl, err := net.Dial(ln.Addr().Network(), ln.Addr().String())
-	if err != nil {
-		return nil
-	}
-	srv, err := ln.Accept()
-	if err != nil {
-		cl.Close()
-		return nil
-	}
-	var mu sync.Mutex
-	// the receiving transport keeps the default MTU when the blocks are sent through a real
-	// transport whose MTU is <mtu> (send-side leg); otherwise <mtu> is applied to the receiver
-	rmtu := mtu
-	if sendLeg {
-		rmtu = maxPkt
-	}
-	recv, err := fwface.VerifStreamReceiver(kind, srv, rmtu, func(b []byte) {
-		mu.Lock()
+	onFrame := func(b []byte) {
+		r.mu.Lock()
 		r.frames = append(r.frames, strconv.Itoa(len(b))+":"+strconv.FormatUint(fnv64(b), 16))
-		mu.Unlock()
-	})
-	if err != nil {
-		cl.Close()
-		srv.Close()
-		return nil
+		r.nframes++
+		r.mu.Unlock()
 	}
-	if sendLeg {
-		_, snd, cls, err := fwface.VerifStreamTransport(kind, cl, mtu, func([]byte) {})
+	var recv func()
+	if kind == "udp" {
+		fwface.UDPUnicastPort = 0
+		pa, pb := freeUDPPort(), freeUDPPort()
+		if pa == 0 || pb == 0 || pa == pb {
+			return nil
+		}
+		rcv, _, closeR, err := fwface.VerifUDPTransport(pb, pa, rmtu, onFrame)
+		if err != nil {
+			return nil
+		}
+		recv, r.closeR, r.udp = rcv, closeR, true
+		if sendLeg {
+			_, snd, cls, err := fwface.VerifUDPTransport(pa, pb, smtu, func([]byte) {})
+			if err != nil {
+				closeR()
+				return nil
+			}
+			r.send, r.closeS = snd, cls
+		} else {
+			c, err := net.DialUDP("udp4", &net.UDPAddr{IP: net.IPv4(127, 0, 0, 1), Port: int(pa)},
+				&net.UDPAddr{IP: net.IPv4(127, 0, 0, 1), Port: int(pb)})
+			if err != nil {
+				closeR()
+				return nil
+			}
+			r.send, r.closeS = func(b []byte) { c.Write(b) }, func() { c.Close() }
+		}
+	} else {
+		var ln net.Listener
+		var err error
+		if kind == "tcp" {
+			ln, err = net.Listen("tcp4", "127.0.0.1:0")
+		} else {
+			sockSeq++
+			ln, err = net.Listen("unix", fmt.Sprintf("@verif-c11-%d-%d", os.Getpid(), sockSeq))
+		}
+		if err != nil {
+			return nil
+		}
+		defer ln.Close()
+		cl, err := net.Dial(ln.Addr().Network(), ln.Addr().String())
+		if err != nil {
+			return nil
+		}
+		srv, err := ln.Accept()
+		if err != nil {
+			cl.Close()
+			return nil
+		}
+		recv, err = fwface.VerifStreamReceiver(kind, srv, rmtu, onFrame)
 		if err != nil {
 			cl.Close()
 			srv.Close()
 			return nil
 		}
-		r.send, r.closeS = snd, cls
+		if sendLeg {
+			_, snd, cls, err := fwface.VerifStreamTransport(kind, cl, smtu, func([]byte) {})
+			if err != nil {
+				cl.Close()
+				srv.Close()
+				return nil
+			}
+			r.send, r.closeS = snd, cls
+		}
+		r.sock = cl
 	}
-	r.sock = cl
 	go func() {
 		r.done <- common.Guard(func() string { recv(); return "nil" })
 	}()
 	return r
 }
 
+func (r *run) frameCount() int {
+	r.mu.Lock()
+	defer r.mu.Unlock()
+	return r.nframes
+}
+
 func (r *run) sockWrite(op string, n int) string {
 	if r.closed {
 		return "dead " + r.result
 	}
-	if op != "rd" || r.send != nil {
+	if op != "rd" || r.send != nil || r.sock == nil {
 		return "skip"
 	}
 	if n > len(r.pending) {
@@ -242,7 +430,19 @@ func (r *run) sockFinish() string {
 		return "dead " + r.result
 	}
 	r.closed = true
-	if r.closeS != nil {
+	if r.udp {
+		// no end of stream on UDP: wait until the receive loop is quiet, then close the receiving transport
+		for n, quiet := r.frameCount(), 0; quiet < 4; {
+			time.Sleep(25 * time.Millisecond)
+			if m := r.frameCount(); m != n {
+				n, quiet = m, 0
+			} else {
+				quiet++
+			}
+		}
+		r.closeS()
+		r.closeR()
+	} else if r.closeS != nil {
 		r.closeS() // Close of the sending transport closes its connection
 	} else {
 		r.sock.Close()
@@ -253,6 +453,8 @@ func (r *run) sockFinish() string {
 		r.hung = true
 		return "hang k=0 f=" + r.take()
 	}
+	r.mu.Lock()
+	defer r.mu.Unlock()
 	return r.result + " f=" + r.take()
 }
 
@@ -284,7 +486,7 @@ func (r *run) take() string {
 }
 
 func (r *run) stop() {
-	if r.sock != nil {
+	if r.isSock {
 		if !r.closed {
 			r.sockFinish()
 		}
@@ -356,11 +558,18 @@ func exec(op string) string {
 		if len(f) < 2 {
 			return "bad-op"
 		}
-		if f[1] == "tcp" || f[1] == "unix" || f[1] == "tcps" || f[1] == "unixs" {
+		if f[1] == "tcp" || f[1] == "unix" || f[1] == "udp" {
 			if len(f) != 3 {
 				return "bad-op"
 			}
-			cur = startSock(f[1], common.Atoi(f[2]))
+			cur = startSock(f[1], 1<<30, common.Atoi(f[2]))
+		} else if f[1] == "appsend" {
+			cur = startAppSend()
+		} else if f[1] == "tcps" || f[1] == "unixs" || f[1] == "udps" {
+			if len(f) != 4 {
+				return "bad-op"
+			}
+			cur = startSock(f[1], common.Atoi(f[2]), common.Atoi(f[3]))
 		} else {
 			cur = start(f[1])
 		}
@@ -379,8 +588,13 @@ func exec(op string) string {
 		}
 		cur.pending = append(cur.pending, b...)
 		return "ok"
+	case "cs": // two goroutines Send on one StreamFace: a Wire of <na> buffers and one of <nb> buffers
+		if cur == nil || cur.wc == nil || len(f) != 3 {
+			return "skip"
+		}
+		return cur.concurrentSend(common.Atoi(f[1]), common.Atoi(f[2]))
 	case "sf": // hand the next block to the sending transport's sendFrame, as a link service does
-		if cur == nil || cur.send == nil || len(f) != 1 {
+		if cur == nil || cur.send == nil || cur.wc != nil || len(f) != 1 {
 			return "skip"
 		}
 		if cur.closed {
@@ -391,15 +605,23 @@ func exec(op string) string {
 		}
 		b := cur.blocks[0]
 		cur.blocks = cur.blocks[1:]
-		cur.sock.SetWriteDeadline(time.Now().Add(watchdog))
+		if cur.sock != nil {
+			cur.sock.SetWriteDeadline(time.Now().Add(watchdog))
+		}
+		before := cur.frameCount()
 		cur.send(b)
+		if cur.udp { // datagrams: pace the sender so that the socket buffer cannot overflow
+			for i := 0; i < 30 && cur.frameCount() == before; i++ {
+				time.Sleep(time.Millisecond)
+			}
+		}
 		return fmt.Sprintf("k=%d w", len(b))
 	case "rd", "rde":
 		if cur == nil || len(f) != 2 {
 			return "skip"
 		}
 		r := cur
-		if r.sock != nil {
+		if r.isSock {
 			return r.sockWrite(f[0], common.Atoi(f[1]))
 		}
 		if r.offered < 0 {
@@ -455,8 +677,11 @@ func exec(op string) string {
 			return "skip"
 		}
 		r := cur
-		if r.sock != nil {
+		if r.isSock {
 			return r.sockFinish()
+		}
+		if r.wc != nil {
+			return "nil"
 		}
 		if r.offered < 0 {
 			return "dead " + r.result
@@ -538,17 +763,22 @@ func gen(g *common.Gen) {
 		if i%4 == 3 {
 			kind = "app"
 		}
-		if i%32 == 22 || i%32 == 30 { // blocks SENT through the real transport and read back by another one
-			kind = "tcps"
-			if i%32 == 30 {
-				kind = "unixs"
+		if i%8 == 6 {
+			switch (i / 8) % 7 {
+			case 2: // datagrams written by a plain socket, real UDP transport receiving
+				genSendLeg(g, r, "udp")
+				continue
+			case 3, 4, 5: // blocks SENT through a real transport and read back by another one
+				genSendLeg(g, r, []string{"tcps", "unixs", "udps"}[(i/8)%7-3])
+				continue
+			case 6: // two goroutines sending on one application-side StreamFace
+				genAppSend(g, r)
+				continue
 			}
-			genSendLeg(g, r, kind)
-			continue
 		}
 		if i%8 == 6 { // the real stream transports' receive loops on a loopback connection
 			kind = "tcp"
-			if i%16 == 14 {
+			if (i/8)%7 == 1 {
 				kind = "unix"
 			}
 			mtu := common.Pick(r, []int{maxPkt, 1500, 128, 1280, 4000})
@@ -723,7 +953,19 @@ func genSendLeg(g *common.Gen, r *common.Rand, kind string) {
 			mtu = r.Range(128, maxPkt)
 		}
 	}
-	g.Op("new %s %d", kind, mtu)
+	// the receiving side's own (send) MTU: the default, or LOWER than the sender's — an asymmetric
+	// link, e.g. after faces/update Mtu on one side; it must not matter for what is received
+	rmtu := maxPkt
+	if r.Chance(1, 2) {
+		rmtu = r.Range(128, mtu)
+		g.Stat("asymmetric-mtu")
+	}
+	if kind == "udp" { // receive leg only: the sender is a plain socket (no sending MTU)
+		g.Op("new %s %d", kind, rmtu)
+		mtu = maxPkt
+	} else {
+		g.Op("new %s %d %d", kind, mtu, rmtu)
+	}
 	g.Stat("hist-" + kind)
 	g.Stat("style-send-leg")
 	n := r.Range(12, 40)
@@ -759,6 +1001,27 @@ func genSendLeg(g *common.Gen, r *common.Rand, kind string) {
 		}
 		g.Op("sf")
 		g.Stat("sf")
+	}
+	g.Op("eof")
+}
+
+// genAppSend: pairs of blocks sent concurrently on one StreamFace, as Wires of 1..4 buffers.
+func genAppSend(g *common.Gen, r *common.Rand) {
+	g.Op("new appsend")
+	g.Stat("hist-appsend")
+	for k := r.Range(4, 12); k > 0; k-- {
+		for j := 0; j < 2; j++ {
+			s := r.Range(2, 600)
+			if r.Chance(1, 4) {
+				s = r.Range(2, maxPkt)
+			}
+			for !sizeOk(s) {
+				s--
+			}
+			sizedBlock(g, r, s)
+		}
+		g.Op("cs %d %d", r.Range(1, 4), common.Pick(r, []int{1, 1, 1, 2, 3}))
+		g.Stat("cs")
 	}
 	g.Op("eof")
 }
